@@ -14,7 +14,11 @@ func parseArraiStringFragment(s string, validEscapes string, indent string) stri
 	var sb strings.Builder
 
 	number := func(i, size, base int) int {
-		n, err := strconv.ParseUint(s[i:i+size], base, size*base/4)
+		bits := 4 * size // hex digits
+		if base == 8 {
+			bits = 8 // \NNN
+		}
+		n, err := strconv.ParseUint(s[i:i+size], base, bits)
 		if err != nil {
 			panic(err)
 		}
